@@ -95,6 +95,12 @@ class Adts:
                                                  {'name': 'Greater', 'index': 2, 'discr': 1, 'fields': []}], 'path': 'Ordering'}
         if last in BUILTIN_ENUMS and ('std::' in head or 'core::' in head or '::' not in head):
             return {'kind': 'enum', 'variants': [{'name': n, 'index': i, 'discr': None, 'fields': []} for i, n in enumerate(BUILTIN_ENUMS[last])], 'path': last}
+        if '::generated::' in head:
+            # an explicitly generated (protobuf) type is asked for: only an exact path match will do
+            for t in self.tables:
+                for k, v in t.items():
+                    if isinstance(v, dict) and v['path'] == head:
+                        return v
         cands = []
         for t in self.tables:
             for k, v in t.items():
